@@ -677,21 +677,18 @@ pub fn builtin_binary_set<E: Effect>(
                     let bits_in_modified = bytes_to_modify * 8;
                     let bits_after = bits_in_modified - bit_offset - num_bits;
 
-                    // Shift value to correct position
-                    let shifted_value = value_u64 << bits_after;
+                    // Shift value to correct position. An unaligned field of more than 57 bits
+                    // spans nine bytes, so the window is handled in 128 bits.
+                    let shifted_value = (value_u64 as u128) << bits_after;
 
                     // Create mask: all 1s except in our target bits
-                    let mask = if num_bits == 64 {
-                        0
-                    } else {
-                        let target_mask = ((1u64 << num_bits) - 1) << bits_after;
-                        !target_mask
-                    };
+                    let target_mask = ((1u128 << num_bits) - 1) << bits_after;
+                    let mask = !target_mask;
 
                     // Reconstruct the bytes
-                    let mut current_bytes = 0u64;
+                    let mut current_bytes = 0u128;
                     for &byte in &modified_bytes {
-                        current_bytes = (current_bytes << 8) | (byte as u64);
+                        current_bytes = (current_bytes << 8) | (byte as u128);
                     }
 
                     let new_bytes_value = (current_bytes & mask) | shifted_value;
